@@ -259,8 +259,8 @@ def provenance(chk, prog, cfg):
         need_de = "decode" in cfg.split("+") or short not in ("PortableRegistry", "PortableType")
         if need_de and not di:
             ok = False
-        chk.expect(ok, "R8.3", "derived:%s" % short, si[0]["loc"], "Serialize: %s; Deserialize: %s" % (
-            ["derived" if derived(i) else "HAND-WRITTEN" for i in si], ["derived" if derived(i) else "HAND-WRITTEN" for i in di] or "absent"), cfg)
+        chk.expect(ok, "R8.3", "derived:%s" % short, si[0]["loc"], kind="UNRECOGNISED" if (si and not all(derived(i) for i in si + di)) else "VIOLATION", detail="Serialize: %s; Deserialize: %s (a hand-written impl is not analysed: reader = writer cannot be decided from the attributes)" % (
+            ["derived" if derived(i) else "HAND-WRITTEN" for i in si], ["derived" if derived(i) else "HAND-WRITTEN" for i in di] or "absent"), config=cfg)
 
 
 def predicates(chk, prog, cfg):
